@@ -37,9 +37,38 @@ def rec(e, fn, operands, k, render=None):
     e['others_unchanged'] = before == [snap(o) for o in operands]
     return e
 
-def ev_bin(op, k, a, b):
+def ev_bin(op, k, a, b, ip=False):
     A, Bp = mkp(a, k), mkp(b, k)
+    if ip:                                          # augmented assignment x op= y: the value of x op y
+        def f():
+            x = A
+            if op == 'add': x += Bp
+            elif op == 'sub': x -= Bp
+            elif op == 'xor': x ^= Bp
+            elif op == 'and': x &= Bp
+            elif op == 'or': x |= Bp
+            else: x //= Bp
+            return x
+        return rec(dict(op=op, k=k, l=venc(a, k), r=venc(b, k), ip=True), f, [Bp], k)
     return rec(dict(op=op, k=k, l=venc(a, k), r=venc(b, k)), lambda: OPS[op](A, Bp), [A, Bp], k)
+
+def live_history(k, a, steps):
+    """one Poly object through reads (degree / dim), operators with the object on either side, and index assignments"""
+    A = mkp(a, k); ev = []
+    for st in steps:
+        if st[0] == 'peek':
+            try: A.degree; A.dim
+            except Exception: pass
+        elif st[0] in OPS:
+            Bp = mkp(st[1], k); side = st[2]
+            e = dict(op=st[0], k=k, l=[] if side == 'l' else venc(st[1], k), r=venc(st[1], k) if side == 'l' else [], live=side)
+            ev.append(rec(e, (lambda: OPS[st[0]](A, Bp)) if side == 'l' else (lambda: OPS[st[0]](Bp, A)), [A, Bp], k))
+        else:
+            e = dict(op='set_int', i=st[1], val=venc([st[2]], k), k=k, raised='')
+            try: A[st[1]] = st[2]
+            except Exception as ex: e['raised'] = type(ex).__name__
+            e['obj'] = penc(A, k); e['others_unchanged'] = True; ev.append(e)
+    return dict(obj0=venc(a, k), ev=ev)
 
 def ev_un(op, k, a, **kw):
     from crysp.bits import pack
@@ -52,6 +81,7 @@ def ev_un(op, k, a, **kw):
     if op == 'dim': return rec(e, lambda: A.dim, [A], k, render=lambda r: r if isinstance(r, int) else -1)
     if op == 'split': return rec(e, lambda: A.split(kw['k2'], kw['be']), [A], k, render=lambda r: penc(r, kw['k2']))
     if op == 'pack': return rec(e, lambda: pack(A), [A], k, render=lambda r: list(r))
+    if op == 'pack_be_frame': return rec(e, lambda: pack(A, '>L'), [A], k, render=lambda r: [])
     if op == 'get_int': return rec(e, lambda: A[kw['i']], [A], k)
     if op == 'get_slice':
         sl = slice(*[None if x == NONE else x for x in (kw['start'], kw['stop'], kw['step'])])
@@ -124,12 +154,29 @@ def run(ctx):
             for n in range(k + 2):
                 ev.append(ev_un('shl', k, a, n=n)); ev.append(ev_un('shr', k, a, n=n))
         ctx.exhaustive_subspaces.append('all %d x %d vector pairs of dims 0..%d over Z/2^%d under + - ^ & | (both orders), neg, shifts, concat' % (len(V), len(V), md, k))
+    # augmented forms; histories on one object (a cached degree / dimension must follow the assignments)
+    for k, md in ((1, 3), (2, 2), (3, 2)):
+        V = list(vecs(k, md))
+        for a in V:
+            for b in V:
+                for op in ('add', 'sub', 'xor', 'and', 'or', 'concat'): ev.append(ev_bin(op, k, a, b, ip=True))
+    hist = []
+    for k in (2, 8, 32):
+        top = (1 << k) - 1
+        for d in (1, 3, 5):
+            for zeros in (d, d - 1, 1):
+                a = [rnd.randrange(1, top + 1) for _ in range(d - zeros)] + [0] * zeros           # upper coefficients zero
+                b1 = [top] * (d + 1); b2 = [rnd.randrange(top + 1) for _ in range(d)]
+                for op in ('and', 'or', 'xor', 'add', 'sub'):
+                    hist.append(live_history(k, a, [('peek',), (op, b1, 'l'), ('set', d - 1, top), (op, b1, 'l'), (op, b2, 'r'), ('set', 0, 0), ('peek',), ('set', -1, 0), (op, b1, 'r'), (op, b2, 'l')]))
+    for t in hist: ctx.mark(('live', str(t['obj0']), t['ev'][0]['op'], t['ev'][0]['k']))
+    validate_traces(ctx, hist, 'histories on one object')
     if big:
         V3 = list(vecs(3, 3))
         for _ in range(30000):
             a, b = rnd.choice(V3), rnd.choice(V3)
             ev.append(ev_bin(rnd.choice(('add', 'sub', 'xor', 'and', 'or')), 3, a, b))
-    for e in ev: ctx.mark((e['op'], e['k'], str(e['l']), str(e.get('r')), e.get('n', 0)))
+    for e in ev: ctx.mark((e['op'], e['k'], str(e['l']), str(e.get('r')), e.get('n', 0), e.get('ip', 0)))
     ctx.sample(ev[len(ev) // 2]); ctx.sample(ev[7])
     validate_events(ctx, ev, 'operators')
     # index expressions
@@ -168,7 +215,7 @@ def run(ctx):
                 for k2 in (1, 2, 3, 4, 6, 8, 12, 16, 32):
                     if k2 < k and k % k2 == 0:
                         for be in (False, True): ev.append(ev_un('split', k, a, k2=k2, be=be))
-                ev.append(ev_un('pack', k, a))
+                ev.append(ev_un('pack', k, a)); ev.append(ev_un('pack_be_frame', k, a)); ev.append(ev_un('pack', k, a))
     for k in (0, 8, 32, 64):
         for _ in range(120 if big else 25):
             da, db = rnd.randrange(0, 21), rnd.randrange(0, 21)
